@@ -388,7 +388,12 @@ func ValidateCondition(column *ColumnSchema, function ConditionFunction, nativeV
 			NativeType(column).String(), nativeValue)
 	}
 
-	switch column.Type {
+	ctype := column.Type
+	if ctype == TypeEnum {
+		// an enum is a scalar of its key type
+		ctype = column.TypeObj.Key.Type
+	}
+	switch ctype {
 	case TypeSet, TypeMap, TypeBoolean, TypeString, TypeUUID:
 		switch function {
 		case ConditionEqual, ConditionNotEqual, ConditionIncludes, ConditionExcludes:
